@@ -216,6 +216,12 @@ func BytesEq(a, b []byte) bool { return string(a) == string(b) }
 // engine (natively frames are read from the peer; nil here).
 func WSFrames(ws any) []string { return nil }
 
+// OnBlock registers a callback the engine runs while a channel receive of the
+// code under test would block (the other actors get to run); it returns
+// whether it made progress. nil removes it. Natively blocked goroutines simply
+// wait while the harness goes on.
+func OnBlock(fn func() bool) {}
+
 // WSReader registers the function the engine's ReadMessage model asks for the
 // next incoming frame of a connection: state 0 = frame, 1 = nothing to read
 // yet (the reader blocks), 2 = closed by the peer. Natively the harness writes
